@@ -269,7 +269,7 @@ func (r *runner) run(tryCuts bool, selftest string) []finding {
 				w.res.DriftNote(fmt.Sprintf("schedule %d: TruncateUptoTx(%d) = %v, model: succeeds", r.si, o.N, err))
 				r.diverged = true
 			}
-		case "tback", "treadmax", "tfront", "twant":
+		case "tback", "tsnap", "treadmax", "tfront", "twant":
 			// the real call ran as one step at tbegin
 		case "tdiscard":
 			if o.Res == "done" {
